@@ -24,6 +24,12 @@ def run_one(patch, props, tier="quick", baseline=False):
         return None
     git("apply", patch)
     results = {}
+    # the checks rewrite evidence/ and replay/ on every run: keep the unchanged tree's files
+    import shutil, tempfile
+    keep = tempfile.mkdtemp(prefix="selftest_keep_")
+    for d in ("evidence", "replay"):
+        if os.path.isdir(os.path.join(VERIF, d)):
+            shutil.copytree(os.path.join(VERIF, d), os.path.join(keep, d))
     try:
         if baseline:
             b = subprocess.run("cd /repo && cargo nextest run --offline --no-fail-fast 2>&1 | grep -E 'Summary'", shell=True, capture_output=True, text=True)
@@ -37,6 +43,11 @@ def run_one(patch, props, tier="quick", baseline=False):
                           "note": [l for l in c.stdout.splitlines() if l.startswith("INCONCLUSIVE")][:2]}
     finally:
         git("checkout", "--", ".")
+        for d in ("evidence", "replay"):
+            if os.path.isdir(os.path.join(keep, d)):
+                shutil.rmtree(os.path.join(VERIF, d), ignore_errors=True)
+                shutil.copytree(os.path.join(keep, d), os.path.join(VERIF, d))
+        shutil.rmtree(keep, ignore_errors=True)
     return results
 
 def main():
